@@ -279,14 +279,18 @@ def stage_keep_needed(ctx: Ctx):
 SPECIAL_SLOTS = [
     # (statement template with one hole, path to the hole from the statement, placeholder, replacements)
     ('t = {}, bb', 'value.elts[0]', '*zz', 'STAR'), ('t = aa, {}', 'value.elts[1]', '*zz', 'STAR'), ('for ii in {}, bb: pass', 'iter.elts[0]', '*zz', 'STAR'),
+    ('t = ({}), bb', 'value.elts[0]', 'zz', 'STAR'), ('for ii in aa, ({}): pass', 'iter.elts[1]', 'zz', 'STAR'), ('t = [({}), bb]', 'value.elts[0]', 'zz', 'STAR'), ('ff(({}), bb)', 'value.args[0]', 'zz', 'STAR'),
     ('t = [{}, bb]', 'value.elts[0]', '*zz', 'STAR'), ('ff({})', 'value.args[0]', '*zz', 'STAR'), ('return {}, bb', 'value.elts[0]', '*zz', 'STAR'), ('t[{}, bb]', 'value.slice.elts[0]', '*zz', 'STAR'),
     ("t = f'{{ aa, {} }}'", 'value.values[0].value.elts[1]', 'zz', 'FSTR'), ("t = f'{{ aa if bb else {} }}'", 'value.values[0].value.orelse', 'zz', 'FSTR'),
     ("t = f'{{ {} }}'", 'value.values[0].value', 'zz', 'FSTR'), ("t = f'{{ aa:{{ {} }} }}'", 'value.values[0].format_spec.values[0].value', 'zz', 'FSTR'),
+    ('t = [bb if({})else cc]', 'value.elts[0].test', 'zz', 'GLUE'), ('t = [ii for ii in({})if ii]', 'value.generators[0].iter', 'zz', 'GLUE'), ('t = ({})if bb else cc', 'value.body', 'zz', 'GLUE'),
+    ('t = [not({})and dd]', 'value.elts[0].values[0].operand', 'zz', 'GLUE'), ('t = {{kk: vv for kk in({})if kk}}', 'value.generators[0].iter', 'zz', 'GLUE'), ('tt = [aa if bb else({})for ii in jj]', 'value.elt.orelse', 'zz', 'GLUE'),
     ("t = f'{{ {}!r:>9 }}'", 'value.values[0].value', 'zz', 'FSTR'), ("t = f'{{ [aa, {}] }}'", 'value.values[0].value.elts[1]', 'zz', 'FSTR'), ("t = f'{{ aa or {} }}'", 'value.values[0].value.values[1]', 'zz', 'FSTR'),
 ]
 SPECIAL_REPL = {
-    'STAR': ['*xx', '*(xx | yy)', '*(xx |\n yy)', '*(xx or yy)', '*(xx |  # c\n yy)', '*xx.yy', '*[xx,\n yy]', '*(xx\n .yy)', '*(xx if yy else zz)', '*(xx,\n yy)', 'xx', '(xx |\n yy)'],
-    'FSTR': ['lambda: xx', 'aa if bb else lambda: xx', 'cc, lambda: xx', '(lambda: xx)', 'ff(lambda: xx)', '[lambda: xx]', 'aa if bb else (lambda: xx)', 'xx := 1', '(xx := 1)', 'not lambda: xx' if False else 'xx if yy else zz',
+    'STAR': ['*xx or yy', '*xx\n.yy', '*xx', '*(xx | yy)', '*(xx |\n yy)', '*(xx or yy)', '*(xx |  # c\n yy)', '*xx.yy', '*[xx,\n yy]', '*(xx\n .yy)', '*(xx if yy else zz)', '*(xx,\n yy)', 'xx', '(xx |\n yy)'],
+    'GLUE': ['(pp +\n qq)', 'gg(pp,\n qq).rr', '(pp + \\\n qq)', 'pp', '(pp)', '[pp,\n qq]', '(pp\n .qq)', 'pp +\\\n qq', '(pp if qq else\n rr)', '"s"\\\n "t"'],
+    'FSTR': ['(aa if bb else lambda: xx)', '(cc, lambda: xx)', '(aa if bb else\n lambda: xx)', '(cc,\n lambda: xx)', 'lambda: xx', 'aa if bb else lambda: xx', 'cc, lambda: xx', '(lambda: xx)', 'ff(lambda: xx)', '[lambda: xx]', 'aa if bb else (lambda: xx)', 'xx := 1', '(xx := 1)', 'not lambda: xx' if False else 'xx if yy else zz',
              'lambda aa=1: aa', 'cc if dd else ee if ff else lambda: xx', '{kk: lambda: xx}', 'xx or yy', 'yield xx' if False else 'xx[lambda: yy]'],
 }
 
@@ -307,7 +311,10 @@ def stage_special_slots(ctx: Ctx):
             try:
                 want_child = ast.parse(f'[\n{repl}\n]', mode='eval').body.elts[0] if fam == 'STAR' else ast.parse(f'(\n{repl}\n)', mode='eval').body
             except SyntaxError:
-                continue
+                try:
+                    want_child = ast.parse(f'_(\n{repl}\n)', mode='eval').body.args[0]     # arglike-only forms such as `*a or b`
+                except (SyntaxError, IndexError):
+                    continue
             for form in ('src', 'fst', 'ast'):
                 root = fst.FST(src0, 'exec')
                 tgt = S.hole(root.a, path)
